@@ -898,6 +898,78 @@ fn probe_history(ctx: &Ctx) -> Result<(), String> {
     Ok(())
 }
 
+/// A bucket whose update section is filled to its capacity (60 pages x 21 entries) through the index API,
+/// then container writes whose encoding keys fall into that bucket (the first of them goes through the
+/// index's flush-and-retry path), close, reopen, read everything. Added after a seeded change ("save only
+/// dirty buckets", the retry path forgot to re-mark the bucket) was missed: random histories never put
+/// 1260 un-flushed entries into one bucket through the container.
+fn overflow_history(ctx: &Ctx, bucket: u8, prefill: usize) -> Result<(), String> {
+    use cascette_client_storage::index::IndexManager;
+    let rt = tokio::runtime::Builder::new_current_thread().enable_all().build().map_err(|e| e.to_string())?;
+    let (td, fs_kind) = mk_tempdir(0).map_err(|e| e.to_string())?;
+    let root = td.path().to_path_buf();
+    let mut h = Hist { ctx, idx: PROBE_ID, target: "dynamic", variant: "plain", trace: Vec::new(), stats: Stats::default(), hash: mix64(0x0f10, u64::from(bucket) * 4096 + prefill as u64), epoch: 0, reads_of_non_latest: 0, fs_kind };
+    let mut rng = ctx.rng(7700 + u64::from(bucket));
+    // create the store, then pre-fill one bucket's update section through a plain IndexManager
+    let bundle = open_dynamic(&rt, &root, 0, 4)?;
+    drop(bundle);
+    let store = root.join("store");
+    {
+        let mut im = IndexManager::new(&store);
+        rt.block_on(im.load_all()).map_err(|e| format!("prefill load_all: {e}"))?;
+        let mut added = 0usize;
+        while added < prefill {
+            let mut k = rng.array::<16>();
+            // first nine bytes decide the bucket: fix the ninth so that the XOR-fold hits `bucket`
+            let x = k[..8].iter().fold(0u8, |a, b| a ^ b);
+            k[8] = x ^ bucket;
+            let ek = cascette_crypto::EncodingKey::from_bytes(k);
+            if IndexManager::bucket_for_key(&ek) != bucket {
+                continue;
+            }
+            // locations far away from what the container will write (archive 900+)
+            im.add_entry(&ek, 900 + (added % 100) as u16, (added as u32) * 64, 64).map_err(|e| format!("prefill add_entry: {e}"))?;
+            added += 1;
+        }
+        im.save_all().map_err(|e| format!("prefill save_all: {e}"))?;
+    }
+    h.log(format!("prefilled bucket {bucket:#x} with {prefill} un-flushed entries"));
+    let bundle = open_dynamic(&rt, &root, 0, 4)?;
+    let mut m = Model::default();
+    // payloads whose derived encoding key falls into the bucket
+    let mut written = 0usize;
+    let mut counter = 0u64;
+    while written < 6 {
+        counter += 1;
+        let mut payload = rng.bytes(40 + written * 17);
+        payload.extend_from_slice(&counter.to_le_bytes());
+        let ekey = derive_ekey(&payload);
+        if IndexManager::bucket_for_key(&cascette_crypto::EncodingKey::from_bytes(ekey)) != bucket {
+            continue;
+        }
+        h.log(format!("write len={} (same bucket)", payload.len()));
+        rt.block_on(bundle.c.write(&[0u8; 16], &payload)).map_err(|e| format!("overflow write: {e}"))?;
+        m.order.push(ekey);
+        m.live.insert(ekey, Obj { payload, class: "random", epoch: 0, write_no: m.writes });
+        m.writes += 1;
+        written += 1;
+        // verify after every write in the same instance, and after a reopen following each of the first writes
+        dyn_verify_all(&mut h, &rt, &bundle.c, &m, &mut rng, "overflow-same-instance");
+        if written <= 4 {
+            let b2 = open_dynamic(&rt, &root, 0, 4)?;
+            h.epoch += 1;
+            h.log("reopen (second handle on the same directory)".to_string());
+            dyn_verify_all(&mut h, &rt, &b2.c, &m, &mut rng, "overflow-after-reopen");
+            drop(b2);
+        }
+    }
+    h.reads_of_non_latest = 5;
+    h.stats.add("overflow_history.runs", 1);
+    drop(bundle);
+    finish_history(&mut h, &m, 4, 0);
+    Ok(())
+}
+
 /// One write that grows the archive by more than 64 MiB (the other remap branch) between small ones.
 fn huge_history(ctx: &Ctx) -> Result<(), String> {
     let rt = tokio::runtime::Builder::new_current_thread().enable_all().build().map_err(|e| e.to_string())?;
@@ -1031,6 +1103,12 @@ fn main() {
     // the design-time probe first (1000, 100, 50)
     let r = std::panic::catch_unwind(std::panic::AssertUnwindSafe(|| probe_history(&ctx)));
     judge_run(&ctx, r, PROBE_ID, "dynamic");
+
+    // full update section, then container writes into that bucket (1259 / 1260 / 1258 pre-filled entries)
+    for (bucket, prefill) in [(3u8, 1259usize), (12, 1260), (7, 1258)] {
+        let r = std::panic::catch_unwind(std::panic::AssertUnwindSafe(|| overflow_history(&ctx, bucket, prefill)));
+        judge_run(&ctx, r, PROBE_ID, "dynamic");
+    }
 
     let next = AtomicUsize::new(0);
     let stopped = AtomicUsize::new(0);
